@@ -103,28 +103,28 @@ func (in *c11Inner) ServeHTTP(w http.ResponseWriter, r *http.Request) {
 }
 
 func c11Judge(k c11Case) *vlib.Failure {
-	var m *cors.Middleware
+	var bm built
 	switch k.Passthrough {
 	case 1:
-		m = new(cors.Middleware)
+		bm = built{m: new(cors.Middleware)}
 	case 2:
 		var err error
-		m, err = buildVia(k.Route, k.Cfg, k.Debug)
+		bm, err = buildViaH(k.Route, k.Cfg, k.Debug)
 		if err != nil {
 			return vlib.Failf("configuration of the C11 alphabet rejected: %v", err)
 		}
-		if err := m.Reconfigure(nil); err != nil {
+		if err := bm.m.Reconfigure(nil); err != nil {
 			return vlib.Failf("Reconfigure(nil) failed: %v", err)
 		}
 	default:
 		var err error
-		m, err = buildVia(k.Route, k.Cfg, k.Debug)
+		bm, err = buildViaH(k.Route, k.Cfg, k.Debug)
 		if err != nil {
 			return vlib.Failf("configuration of the C11 alphabet rejected (route %q): %v", routeNames[k.Route], err)
 		}
 	}
 	inner := &c11Inner{spec: k.Handler}
-	h := m.Wrap(inner)
+	h := bm.wrap(inner)
 	inner.self = h
 	rec := vlib.NewRec()
 	for kk, v := range k.Preset {
